@@ -727,7 +727,7 @@ class Builder:
                             return self.maybe_inline_property(base, ci, r[1], r[2], name, ctx)
                         return self.func_ref(r[1], r[2], base, dyn_cls=ci)
                 return ("attr", base, name)
-            if k == "update":
+            if k == "update" and not self._is_method_name(base, name):
                 for path, v in base[2]:
                     if path == (name,):
                         return v
@@ -767,6 +767,13 @@ class Builder:
                             return v
                         return ("attr", base, name)
         return ("attr", base, name)
+
+    def _is_method_name(self, base, name) -> bool:
+        ci = self.type_of(base)
+        if ci is None:
+            return False
+        r = self.prog.resolve_attr(ci, name)
+        return r is not None and r[0] in ("method", "assign")
 
     def maybe_inline_property(self, base, ci, dc, fn, name, ctx):
         overridden = self.overridden_below(ci, name, dc)
@@ -828,6 +835,8 @@ class Builder:
                     r = self.prog.annotation_class(a[1].module, a[2].returns, bt, a[2])
         elif k == "ite":
             r = self.type_of(n[2]) or self.type_of(n[3])
+        elif k == "item" and isinstance(n[1], tuple) and n[1] and n[1][0] == "scan" and n[2] == 0:
+            r = self.type_of(n[1][2])  # final carry has the type of the initial carry
         if r is not None:
             self.ntype[n] = r
         return r
@@ -961,8 +970,16 @@ class Builder:
             if self.inline("method", f.qualname, dc) and self.depth < self.max_depth:
                 return self.apply(f, args, kwargs)
             if f.bound_self is not None:
-                return ("call", ("attr", f.bound_self, name), args, kwargs)
-            return ("call", ("global", f.qualname), args, kwargs)
+                node = ("call", ("attr", f.bound_self, name), args, kwargs)
+            else:
+                node = ("call", ("global", f.qualname), args, kwargs)
+            rt = self.prog.annotation_class(dc.module, getattr(f.node, "returns", None), dyn, f.node)
+            if rt is not None:
+                try:
+                    self.ntype.setdefault(node, rt)
+                except TypeError:
+                    pass
+            return node
         if self.inline("function", f.qualname, None) and self.depth < self.max_depth:
             return self.apply(f, args, kwargs)
         return ("call", ("global", f.qualname), args, kwargs)
